@@ -453,8 +453,10 @@ def inline_new_callees(fn, fns, is_new, max_inlines=24):
 
 
 class Facts:
-    def __init__(self, directory):
+    def __init__(self, directory, inline=True):
         self.dir = directory
+        self._inline = inline
+        self._raw = None
         self.crates = {}
         self.fns = {}      # path -> Fn (first wins; duplicates kept in fns_all)
         self.fns_all = {}  # path -> [Fn]
@@ -480,7 +482,17 @@ class Facts:
         self.inlined = {}
         self.spliced_fns = {}
         self.spliced = set()
-        self._apply_baseline()
+        if inline:
+            self._apply_baseline()
+
+    @property
+    def raw(self):
+        """The same program without any splicing: every function as written (new helpers are functions of their own)."""
+        if not self._inline or not (self.inlined or self.spliced):
+            return self
+        if self._raw is None:
+            self._raw = Facts(self.dir, inline=False)
+        return self._raw
 
     def _apply_baseline(self):
         """Splice functions that are not on the reference tree into their known callers (see inline_new_callees)."""
